@@ -288,6 +288,12 @@ pub fn run(prop: &str, tier: &str, replay: Option<&str>) -> i32 {
                 check_pem("certificate", &pem, "CERTIFICATE", cert.der(), &mut out.findings);
                 out.digest = fnv(pem.as_bytes());
                 out.transitions = 2;
+                // the owned DER conversion hands out the same bytes
+                let der = cert.der().to_vec();
+                let owned: pki_types::CertificateDer<'static> = cert.into();
+                if owned.as_ref() != der.as_slice() {
+                    out.findings.push(Finding::new("PEM-BYTES", "CertificateDer::from(Certificate)", "the conversion hands out other bytes than der()"));
+                }
             }
             out
         });
@@ -308,6 +314,11 @@ pub fn run(prop: &str, tier: &str, replay: Option<&str>) -> i32 {
                     out.digest = fnv(pem.as_bytes());
                     out.transitions = 2;
                 }
+                let der = csr.der().to_vec();
+                let owned: pki_types::CertificateSigningRequestDer<'static> = csr.into();
+                if owned.as_ref() != der.as_slice() {
+                    out.findings.push(Finding::new("PEM-BYTES", "CertificateSigningRequestDer::from(CertificateSigningRequest)", "the conversion hands out other bytes than der()"));
+                }
             }
             out
         });
@@ -327,6 +338,11 @@ pub fn run(prop: &str, tier: &str, replay: Option<&str>) -> i32 {
                     check_pem("crl", &pem, "X509 CRL", crl.der(), &mut out.findings);
                     out.digest = fnv(pem.as_bytes());
                     out.transitions = 2;
+                }
+                let der = crl.der().to_vec();
+                let owned: pki_types::CertificateRevocationListDer<'static> = crl.into();
+                if owned.as_ref() != der.as_slice() {
+                    out.findings.push(Finding::new("PEM-BYTES", "CertificateRevocationListDer::from(CertificateRevocationList)", "the conversion hands out other bytes than der()"));
                 }
             }
             out
